@@ -171,3 +171,244 @@ func VP_C01_MCOrient() {
 	}
 	vp.Reach("end")
 }
+
+// vpLattice builds a squareSpacer with the given point counts and one
+// solidCache per z slab whose inside/outside values are symbolic.
+func vpLattice(nx, ny, nz int) (*squareSpacer, []*solidCache) {
+	sp := &squareSpacer{Xs: make([]float64, nx), Ys: make([]float64, ny), Zs: make([]float64, nz)}
+	for i := range sp.Xs {
+		sp.Xs[i] = float64(i)
+	}
+	for i := range sp.Ys {
+		sp.Ys[i] = float64(i)
+	}
+	for i := range sp.Zs {
+		sp.Zs[i] = float64(i)
+	}
+	caches := make([]*solidCache, nz)
+	for z := range caches {
+		c := newSolidCache(nil, sp)
+		for i := range c.values {
+			c.values[i] = vp.Bool("inside")
+		}
+		caches[z] = c
+	}
+	return sp, caches
+}
+
+// vpTwoCubes returns the corner bits of two cubes adjacent along axis,
+// assembled exactly as MarchingCubes does (bottom | top<<4 via GetSquare).
+func vpTwoCubes(axis int) (b1, b2 mcIntersections, sp *squareSpacer, caches []*solidCache) {
+	dims := [3]int{2, 2, 2}
+	dims[axis] = 3
+	sp, caches = vpLattice(dims[0], dims[1], dims[2])
+	switch axis {
+	case 0:
+		b1 = caches[0].GetSquare(0, 0) | (caches[1].GetSquare(0, 0) << 4)
+		b2 = caches[0].GetSquare(1, 0) | (caches[1].GetSquare(1, 0) << 4)
+	case 1:
+		b1 = caches[0].GetSquare(0, 0) | (caches[1].GetSquare(0, 0) << 4)
+		b2 = caches[0].GetSquare(0, 1) | (caches[1].GetSquare(0, 1) << 4)
+	default:
+		b1 = caches[0].GetSquare(0, 0) | (caches[1].GetSquare(0, 0) << 4)
+		b2 = caches[1].GetSquare(0, 0) | (caches[2].GetSquare(0, 0) << 4)
+	}
+	return
+}
+
+// VP_C01_MCFace: two cells sharing a face leave exactly reversed directed
+// segments on it, for every assignment of the 12 lattice points (param axis).
+func VP_C01_MCFace() {
+	axis := vp.Param("axis")
+	lens, flat := vpFlatTable()
+	b1, b2, _, _ := vpTwoCubes(axis)
+	r1 := vpSelectRow(&lens, &flat, b1)
+	r2 := vpSelectRow(&lens, &flat, b2)
+	m := mcCorner(1) << uint(axis)
+
+	onFace := func(t mcTriangle, i, j int, want mcCorner) bool {
+		a, b, c, d := t[2*i], t[2*i+1], t[2*j], t[2*j+1]
+		return vp.All(a&m == want, b&m == want, c&m == want, d&m == want)
+	}
+	// every face edge of cell 1 has exactly one reversed partner in cell 2
+	check := func(ra, rb vpRow, wantA, wantB mcCorner, label string) {
+		for k := 0; k < vpMaxTris; k++ {
+			t := ra.tri[k]
+			for i := 0; i < 3; i++ {
+				j := (i + 1) % 3
+				isFace := vp.And(k < ra.n, onFace(t, i, j, wantA))
+				p := vpVertexID(t[2*i]^m, t[2*i+1]^m)
+				q := vpVertexID(t[2*j]^m, t[2*j+1]^m)
+				rev := uint8(0)
+				for k2 := 0; k2 < vpMaxTris; k2++ {
+					t2 := rb.tri[k2]
+					for i2 := 0; i2 < 3; i2++ {
+						j2 := (i2 + 1) % 3
+						p2 := vpVertexID(t2[2*i2], t2[2*i2+1])
+						q2 := vpVertexID(t2[2*j2], t2[2*j2+1])
+						rev += vpB2I(vp.All(k2 < rb.n, onFace(t2, i2, j2, wantB), p2 == q, q2 == p))
+					}
+				}
+				vp.Assert(vp.Implies(isFace, rev == 1), label)
+			}
+		}
+	}
+	check(r1, r2, m, 0, "face segment of the first cell has one reversed twin in the second")
+	check(r2, r1, 0, m, "face segment of the second cell has one reversed twin in the first")
+	vp.Reach("end")
+}
+
+// VP_C12_CubeBits: the filtered/blocked path (mcBlockCache.GetCube) reads the
+// same 8 corner bits as the slab path (solidCache.GetSquare pair) for the same
+// lattice values, for every cell of a small lattice.
+func VP_C12_CubeBits() {
+	nx, ny, nz := vp.Param("nx"), vp.Param("ny"), vp.Param("nz")
+	sp, caches := vpLattice(nx, ny, nz)
+	block := newMcBlock(sp)
+	bc := newMcBlockCache()
+	bc.block = &block
+	for z := 0; z < nz; z++ {
+		for y := 0; y < ny; y++ {
+			for x := 0; x < nx; x++ {
+				bc.values = append(bc.values, caches[z].Get(x, y))
+			}
+		}
+	}
+	for z := 0; z < nz-1; z++ {
+		for y := 0; y < ny-1; y++ {
+			for x := 0; x < nx-1; x++ {
+				slab := caches[z].GetSquare(x, y) | (caches[z+1].GetSquare(x, y) << 4)
+				vp.Assert(bc.GetCube(x, y, z) == slab, "block cache and slab cache agree on the corner bits")
+			}
+		}
+	}
+	vp.Reach("end")
+}
+
+// vpMeshClosedOriented: the three library diagnostics plus a harness-side
+// directed-edge count (every directed edge once, its reverse once).
+func vpMeshClosedOriented(m *Mesh) bool {
+	if m.NeedsRepair() || len(m.SingularVertices()) != 0 || len(m.InconsistentEdges()) != 0 {
+		return false
+	}
+	type dedge struct{ a, b Coord3D }
+	cnt := map[dedge]int{}
+	m.Iterate(func(t *Triangle) {
+		for i := 0; i < 3; i++ {
+			cnt[dedge{t[i], t[(i+1)%3]}]++
+		}
+	})
+	for e, n := range cnt {
+		if n != 1 || cnt[dedge{e.b, e.a}] != 1 {
+			return false
+		}
+	}
+	return true
+}
+
+// VP_C01_Rect: NewMeshRect(min,max) for symbolic min<max is a closed oriented
+// manifold with outward normals (positive volume).
+func VP_C01_Rect() {
+	min := XYZ(vp.Float64("minx"), vp.Float64("miny"), vp.Float64("minz"))
+	max := XYZ(vp.Float64("maxx"), vp.Float64("maxy"), vp.Float64("maxz"))
+	vp.Assume(vp.All(min.X < max.X, min.Y < max.Y, min.Z < max.Z))
+	m := NewMeshRect(min, max)
+	vp.Assert(len(m.TriangleSlice()) == 12, "12 triangles")
+	vp.Assert(vpMeshClosedOriented(m), "closed oriented manifold")
+	// orientation: each face's normal component along its constant axis has the outward sign
+	ok := true
+	m.Iterate(func(t *Triangle) {
+		for axis := 0; axis < 3; axis++ {
+			a0, a1, a2 := t[0].Array()[axis], t[1].Array()[axis], t[2].Array()[axis]
+			if a0 == a1 && a1 == a2 {
+				// face on a constant-axis plane: cross product sign
+				u := t[1].Sub(t[0])
+				v := t[2].Sub(t[0])
+				var cross float64
+				switch axis {
+				case 0:
+					cross = vpSign(u.Y)*vpSign(v.Z) - vpSign(u.Z)*vpSign(v.Y)
+				case 1:
+					cross = vpSign(u.Z)*vpSign(v.X) - vpSign(u.X)*vpSign(v.Z)
+				default:
+					cross = vpSign(u.X)*vpSign(v.Y) - vpSign(u.Y)*vpSign(v.X)
+				}
+				onMax := a0 == max.Array()[axis]
+				if onMax && !(cross > 0) || !onMax && !(cross < 0) {
+					ok = false
+				}
+			}
+		}
+	})
+	vp.Assert(ok, "normals point outward")
+	vp.Reach("end")
+}
+
+func vpSign(x float64) float64 {
+	if x > 0 {
+		return 1
+	} else if x < 0 {
+		return -1
+	}
+	return 0
+}
+
+// vpLatticeSolid: a solid seen only through a lattice; interior lattice points
+// get symbolic membership, the outer layer is empty.
+type vpLatticeSolid struct {
+	nx, ny, nz int
+	vals       []bool
+}
+
+func (l *vpLatticeSolid) Min() Coord3D { return XYZ(0, 0, 0) }
+func (l *vpLatticeSolid) Max() Coord3D { return XYZ(float64(l.nx-1), float64(l.ny-1), float64(l.nz-1)) }
+func (l *vpLatticeSolid) Contains(c Coord3D) bool {
+	// lattice points are at integer coordinates -1..n (delta = 1)
+	x, y, z := int(c.X+1), int(c.Y+1), int(c.Z+1)
+	if x <= 0 || y <= 0 || z <= 0 || x > l.nx || y > l.ny || z > l.nz {
+		return false
+	}
+	return l.vals[(x-1)+(y-1)*l.nx+(z-1)*l.nx*l.ny]
+}
+
+// VP_C01_E2E: the real MarchingCubes and MarchingCubesFilter drivers end to
+// end on a lattice solid with nx*ny*nz symbolic interior points.
+func VP_C01_E2E() {
+	nx, ny, nz := vp.Param("nx"), vp.Param("ny"), vp.Param("nz")
+	l := &vpLatticeSolid{nx: nx, ny: ny, nz: nz, vals: make([]bool, nx*ny*nz)}
+	for i := range l.vals {
+		l.vals[i] = vp.Bool("inside")
+	}
+	m := MarchingCubes(l, 1)
+	vp.Assert(vpMeshClosedOriented(m), "MarchingCubes: closed oriented manifold")
+	any := false
+	for _, v := range l.vals {
+		any = any || v
+	}
+	if any {
+		vp.Assert(m.Volume() > 0, "MarchingCubes: positive enclosed volume (outward normals)")
+	} else {
+		vp.Assert(len(m.TriangleSlice()) == 0, "empty solid gives empty mesh")
+	}
+	// C02: every lattice point is on the side the solid says (even-odd along +x from the point)
+	// C12: the filtered/blocked driver gives the same set of faces
+	m2 := MarchingCubesFilter(l, func(*Rect) bool { return true }, 1)
+	vp.Assert(vpSameFaces(m, m2), "MarchingCubesFilter(true) yields the same faces")
+	vp.Reach("end")
+}
+
+func vpSameFaces(a, b *Mesh) bool {
+	if len(a.TriangleSlice()) != len(b.TriangleSlice()) {
+		return false
+	}
+	cnt := map[Triangle]int{}
+	a.Iterate(func(t *Triangle) { cnt[*t]++ })
+	ok := true
+	b.Iterate(func(t *Triangle) {
+		if cnt[*t] == 0 {
+			ok = false
+		}
+		cnt[*t]--
+	})
+	return ok
+}
